@@ -96,6 +96,20 @@ def enc_time(t):
     return ['tag', str(int(t * 4294967296))]
 
 
+class SigCallable:
+    """one class; each instance takes the positional parameters named in its __signature__"""
+    def __init__(self, f, names):
+        import inspect
+        self.f = f
+        self.k = len(names)
+        self.__signature__ = inspect.Signature([inspect.Parameter(n, inspect.Parameter.POSITIONAL_OR_KEYWORD) for n in names])
+
+    def __call__(self, *args):
+        if len(args) != self.k:
+            raise TypeError('takes %d positional arguments but %d were given' % (self.k, len(args)))
+        return self.f(*args)
+
+
 class Hang(BaseException):
     pass
 
@@ -214,6 +228,41 @@ def run_history(ops):
             def g(x, y, msg, time):
                 rec(rid, tag, (msg, time))
             return functools.partial(g, 'x', 'y')
+        if shape.startswith('partial') and shape[7:].isdigit():
+            # functools.partial objects (ONE class) of different positional arity
+            k = int(shape[7:])
+            g = [lambda x: rec(rid, tag, ()), lambda x, msg: rec(rid, tag, (msg,)), lambda x, msg, time: rec(rid, tag, (msg, time)),
+                 lambda x, msg, time, addr: rec(rid, tag, (msg, time, addr)),
+                 lambda x, msg, time, addr, port: rec(rid, tag, (msg, time, addr, port))][k]
+            return functools.partial(g, 'x')
+        if shape == 'partialv':
+            def g(x, *args):
+                rec(rid, tag, args)
+            return functools.partial(g, 'x')
+        if shape.startswith('method') and shape[6:].isdigit():
+            # bound methods (ONE class, types.MethodType) of different arity, of one holder class
+            class Holder5:
+                def m0(self):
+                    rec(rid, tag, ())
+
+                def m1(self, msg):
+                    rec(rid, tag, (msg,))
+
+                def m2(self, msg, time):
+                    rec(rid, tag, (msg, time))
+
+                def m3(self, msg, time, addr):
+                    rec(rid, tag, (msg, time, addr))
+
+                def m4(self, msg, time, addr, port):
+                    rec(rid, tag, (msg, time, addr, port))
+            return getattr(Holder5(), 'm' + shape[6:])
+        if shape.startswith('object') and shape[6:].isdigit():
+            # callable objects of ONE class whose instances advertise different signatures (__signature__)
+            k = int(shape[6:])
+            names = ['msg', 'time', 'addr', 'port'][:k]
+            obj = SigCallable(lambda *a: rec(rid, tag, a), names)
+            return obj
         if shape == 'object':
             class Callable:
                 def __call__(self, msg, time, addr):
